@@ -234,6 +234,7 @@ structure ImplOut where
   digest : List (List String) := []          -- digest tokens split at ':'
   hasDigest : Bool := false
   told : List String := []                   -- "remove" requests the fake backend received ("B=told(room,sN)")
+  fed : List String := []                    -- sessions on Hub.federatedSessions ("sN")
   deriving Inhabited
 
 def parseImpl (toks : List String) : ImplOut :=
@@ -243,6 +244,7 @@ def parseImpl (toks : List String) : ImplOut :=
       { o with hasDigest := true,
                digest := if body == "" then [] else (splitOnChar body ';').map (fun e => splitOnChar e ':') }
     else if hasPrefix "B=" t then { o with told := o.told ++ [t] }
+    else if hasPrefix "F=" t then { o with fed := o.fed ++ [dropS 2 t] }
     else if hasPrefix "c" t then
       match splitOnChar t '=' with
       | c :: rest =>
@@ -485,6 +487,12 @@ def stepPar (judge : St → Hub → Op → ImplOut → String) (st : St) (subs :
 def stepWith (judge : St → Hub → Op → ImplOut → String) (st : St) (opToks implToks : List String) :
     St × String × String :=
   if opToks.head? == some "par" then stepPar judge st (splitToks ";;" (opToks.drop 1)) implToks else
+  if opToks.head? == some "fed" then
+    -- the list of federated sessions is not part of the model: nothing changes, the judge looks at the list
+    let impl := parseImpl implToks
+    let v := if implToks.isEmpty then "na" else judge st st.hub (.housekeeping 0) impl
+    ({ st with lastDigest := if impl.hasDigest then impl.digest else st.lastDigest }, showState st.hub st.seen, v)
+  else
   match parseOp opToks with
   | none => (st, "bad-op", "na")
   | some op =>
@@ -503,6 +511,12 @@ def stepWith (judge : St → Hub → Op → ImplOut → String) (st : St) (opTok
     -- the judge sees the previous implementation digest in `lastDigest`
     let v := if implToks.isEmpty then "na" else judge st' st.hub op impl
     ({ st' with lastDigest := if impl.hasDigest then impl.digest else st.lastDigest }, modelLine, v)
+
+/-- C07: the list of federated sessions holds live sessions only. -/
+def judgeFederated (impl : ImplOut) : List String :=
+  if !impl.hasDigest then [] else
+  impl.fed.filterMap fun s =>
+    if (digestFind impl.digest "se").any (fun t => t[1]? == some s) then none else some s!"residue:federated:{s}"
 
 /-- C07: per-backend count of registered sessions never exceeds the configured limit. -/
 def judgeLimits (limits : List (Nat × Nat)) (impl : ImplOut) : List String :=
